@@ -143,6 +143,25 @@ def shard(args):
                               dict(cls=type(o).__name__, dir='scalar', side='req', pdu=want.hex(), value=int(v)),
                               'constructor given the scalar %r encodes %s, expected %s' % (v, got.hex() if isinstance(got, bytes) else got, want.hex()),
                               type(o).__name__)
+    # bit lists given as truthy / falsy integers (a datastore may hold coils as 0xFF00 / 0, or 0 / 1 / 2): ON is truthiness
+    if (kind, fc) in (('rsp', 1), ('rsp', 2), ('req', 0x0F)):
+        for vals in ([0xFF00, 0, 0xFF00], [2, 0, 1, 4, 0, 0, 0, 0, 8], [1, 1, 0], [0x100, 0x8000]):
+            bits = [bool(v) for v in vals]
+            if kind == 'rsp':
+                o = bind.RSP[fc](list(vals))
+                want = pdu.encode(dict(kind='rsp', fc=fc, byte_count=(len(bits) + 7) // 8, bits=bits))
+            else:
+                o = bind.REQ[fc](0x0013, list(vals))
+                want = pdu.encode(dict(kind='req', fc=fc, address=0x0013, count=len(bits), byte_count=(len(bits) + 7) // 8, bits=bits))
+            acc.inc('evaluations')
+            try:
+                got = bind.pdu_bytes(o)
+            except Exception as e:   # noqa
+                got = repr(e).encode()
+            if got != want:
+                acc.violation('C01/%s/enc/integer-bit-values' % type(o).__name__,
+                              dict(cls=type(o).__name__, dir='intbits', side='req' if kind == 'req' else 'rsp', pdu=want.hex(), values=list(vals)),
+                              'bit values %r encode as %s, expected %s' % (vals, got.hex(), want.hex()), type(o).__name__)
     # exception responses produced by doException for every request class
     if kind == 'req':
         m0 = next(gen.messages(kind, fc, 'quick'))
@@ -254,6 +273,10 @@ def replay(w):
     bad = False
     if w['dir'] == 'register':
         acc = shard_register(('register', side, 'quick'))
+        vs = [v for v in acc.violations if v['witness'] == w]
+        return bool(vs), '\n'.join(v['msg'] for v in vs) or 'no violation'
+    if w['dir'] == 'intbits':
+        acc = shard((('req' if side == 'req' else 'rsp'), m['fc'], 'quick'))
         vs = [v for v in acc.violations if v['witness'] == w]
         return bool(vs), '\n'.join(v['msg'] for v in vs) or 'no violation'
     if w['dir'] == 'scalar':
